@@ -70,3 +70,293 @@ Qed.
 
 Lemma map_clip_log_shortfall f : shortfall eps_clip f <= eps_clip / 2 -> map clip_log f = map ln f.
 Proof. intros H. apply map_clip_log_hi, shortfall_gt; [unfold eps_clip; lra | exact H]. Qed.
+
+(* ---- weights: alpha and its idempotence ---- *)
+
+Lemma rscale_1 l : rscale 1 l = l.
+Proof. unfold rscale. induction l as [|x l IH]; cbn [map]; [reflexivity|]. rewrite IH. f_equal. lra. Qed.
+
+Lemma sqs_rscale a w : rsum (sqs (rscale a w)) = a * a * rsum (sqs w).
+Proof.
+  unfold sqs, rscale. induction w as [|x w IH]; cbn [map rsum]; [lra|]. rewrite IH. lra.
+Qed.
+
+Lemma alpha_rscale a w : a <> 0 -> rsum (sqs w) <> 0 -> alpha (rscale a w) = alpha w / a.
+Proof.
+  intros Ha Hq. unfold alpha. rewrite rsum_rscale, sqs_rscale. field. split; assumption.
+Qed.
+
+Lemma alpha_neq_0 w : rsum w <> 0 -> rsum (sqs w) <> 0 -> alpha w <> 0.
+Proof.
+  intros Hs Hq. unfold alpha, Rdiv. apply Rmult_integral_contrapositive_currified; [exact Hs|].
+  apply Rinv_neq_0_compat. exact Hq.
+Qed.
+
+(* the factor is applied up to three times by the code; after the first time it is 1 *)
+Lemma alpha_idempotent w : rsum w <> 0 -> rsum (sqs w) <> 0 -> alpha (scale_w w) = 1.
+Proof.
+  intros Hs Hq. unfold scale_w. pose proof (alpha_neq_0 w Hs Hq) as Ha.
+  rewrite alpha_rscale by assumption. field. exact Ha.
+Qed.
+
+Lemma scale_w_idempotent w : rsum w <> 0 -> rsum (sqs w) <> 0 -> scale_w (scale_w w) = scale_w w.
+Proof.
+  intros Hs Hq. unfold scale_w at 1. rewrite alpha_idempotent by assumption. apply rscale_1.
+Qed.
+
+Lemma rsum_scale_w w : rsum (scale_w w) = alpha w * rsum w.
+Proof. unfold scale_w. apply rsum_rscale. Qed.
+
+Lemma rsum_mc_norm v : rsum v <> 0 -> rsum (mc_norm v) = 1.
+Proof. intros H. unfold mc_norm. rewrite rsum_rscale. field. exact H. Qed.
+
+Lemma rdot_mc_norm v g : rdot (mc_norm v) g = rdot v g / rsum v.
+Proof. unfold mc_norm. rewrite rdot_scale_l. unfold Rdiv. ring. Qed.
+
+Lemma blend_nil ws : blend ws [] = ws.
+Proof. unfold blend. apply app_nil_r. Qed.
+
+Lemma blend_const_bg ws w_bkg n :
+  rsum (blend ws (bg_const_weights w_bkg n)) = rsum ws - INR n * w_bkg.
+Proof. unfold blend, bg_const_weights. rewrite rsum_app, rsum_repeat. lra. Qed.
+
+(* ---- the value equals the documented formula ---- *)
+
+Lemma rdot_clip_hi w f : Forall (fun x => eps_clip < x) f -> rdot w (map clip_log f) = rdot w (map ln f).
+Proof. intros H. rewrite (map_clip_log_hi f H). reflexivity. Qed.
+
+Lemma nll_base_scaled ext w f v g :
+  rsum w <> 0 -> rsum (sqs w) <> 0 -> rsum v <> 0 ->
+  nll_base ext (scale_w w) f (mc_norm v) g
+  = - alpha w * (rdot w (map clip_log f) - rsum w * int_f ext (rdot v g / rsum v)).
+Proof.
+  intros Hs Hq Hv. unfold nll_base. rewrite alpha_idempotent by assumption.
+  rewrite rsum_scale_w, rdot_mc_norm, (rsum_mc_norm v Hv).
+  unfold scale_w. rewrite rdot_scale_l.
+  replace (rdot v g / rsum v / 1) with (rdot v g / rsum v) by (field; exact Hv). ring.
+Qed.
+
+Lemma nll_default_eq ext ws bgw f v g :
+  let w := blend ws bgw in
+  rsum w <> 0 -> rsum (sqs w) <> 0 -> rsum v <> 0 ->
+  nll_default ext ws bgw f v g
+  = - alpha w * (rdot w (map clip_log f) - rsum w * int_f ext (rdot v g / rsum v)).
+Proof.
+  intros w Hs Hq Hv. unfold nll_default, nll_call, fcn_weight. fold w.
+  rewrite scale_w_idempotent by assumption. apply nll_base_scaled; assumption.
+Qed.
+
+Lemma nll_grad_default_eq ext ws bgw f v g :
+  let w := blend ws bgw in
+  nll_grad_default ext ws bgw f v g
+  = - alpha w * (rdot w (map clip_log f) - rsum w * int_f ext (rdot v g / rsum v)).
+Proof.
+  intros w. unfold nll_grad_default, nll_gradval, fcn_weight. fold w.
+  rewrite rsum_scale_w, rdot_mc_norm. unfold scale_w. rewrite rdot_scale_l. ring.
+Qed.
+
+Theorem nll_matches_definition ws bgw f v g :
+  let w := blend ws bgw in
+  rsum w <> 0 -> rsum (sqs w) <> 0 -> rsum v <> 0 -> Forall (fun x => eps_clip < x) f ->
+  nll_default false ws bgw f v g = nll_doc w f v g /\
+  nll_grad_default false ws bgw f v g = nll_doc w f v g.
+Proof.
+  intros w Hs Hq Hv Hf. split.
+  - rewrite nll_default_eq by assumption. fold w. unfold nll_doc. rewrite rdot_clip_hi by exact Hf. reflexivity.
+  - rewrite nll_grad_default_eq. fold w. unfold nll_doc. rewrite rdot_clip_hi by exact Hf. reflexivity.
+Qed.
+
+Theorem nll_extended_matches_definition ws bgw f v g :
+  let w := blend ws bgw in
+  rsum w <> 0 -> rsum (sqs w) <> 0 -> rsum v <> 0 -> Forall (fun x => eps_clip < x) f ->
+  nll_default true ws bgw f v g = nll_doc_ext w f v g /\
+  nll_grad_default true ws bgw f v g = nll_doc_ext w f v g.
+Proof.
+  intros w Hs Hq Hv Hf. split.
+  - rewrite nll_default_eq by assumption. fold w. unfold nll_doc_ext. rewrite rdot_clip_hi by exact Hf. reflexivity.
+  - rewrite nll_grad_default_eq. fold w. unfold nll_doc_ext. rewrite rdot_clip_hi by exact Hf. reflexivity.
+Qed.
+
+(* the value returned alongside the gradient is the stand-alone value (any densities, incl. the clipped branch) *)
+Theorem value_alongside_equals_standalone ext ws bgw f v g :
+  let w := blend ws bgw in
+  rsum w <> 0 -> rsum (sqs w) <> 0 -> rsum v <> 0 ->
+  nll_grad_default ext ws bgw f v g = nll_default ext ws bgw f v g.
+Proof. intros w Hs Hq Hv. rewrite nll_default_eq by assumption. apply nll_grad_default_eq. Qed.
+
+(* ---- batch independence ---- *)
+
+Lemma map_concat_map (h : R -> R) (ls : list (list R)) : map h (concat ls) = concat (map (map h) ls).
+Proof. apply concat_map. Qed.
+
+Definition batches_ok (bs : list (list R * list R)) : Prop :=
+  Forall (fun b => length (fst b) = length (snd b)) bs.
+
+Lemma rdot_concat_h (h : R -> R) bs : batches_ok bs ->
+  rdot (concat (map fst bs)) (map h (concat (map snd bs)))
+  = rsum (map (fun b => rdot (fst b) (map h (snd b))) bs).
+Proof.
+  induction 1 as [|b bs Hb _ IH]; cbn [map concat rsum]; [reflexivity|].
+  rewrite map_app, rdot_app by (rewrite map_length; exact Hb). rewrite IH. reflexivity.
+Qed.
+
+Lemma rsum_concat_fst (bs : list (list R * list R)) :
+  rsum (concat (map fst bs)) = rsum (map (fun b => rsum (fst b)) bs).
+Proof. rewrite rsum_concat. unfold rsum_batches. rewrite map_map. reflexivity. Qed.
+
+Lemma rdot_concat_pairs bs : batches_ok bs ->
+  rdot (concat (map fst bs)) (concat (map snd bs)) = rsum (map (fun b => rdot (fst b) (snd b)) bs).
+Proof. intros H. rewrite (rdot_concat bs H). reflexivity. Qed.
+
+(* for ANY split of the (weight, density) sample into batches - sizes arbitrary, also unequal,
+   empty or larger than the sample - the accumulated value is the un-batched value *)
+Theorem nll_batch_independent ext bd bm : batches_ok bd -> batches_ok bm ->
+  nll_gradval_batched ext bd bm
+  = nll_gradval ext (concat (map fst bd)) (concat (map snd bd)) (concat (map fst bm)) (concat (map snd bm)).
+Proof.
+  intros Hd Hm. unfold nll_gradval_batched, nll_gradval, clip_batch. cbn [fst snd].
+  rewrite (rdot_concat_h clip_log bd Hd), rsum_concat_fst, (rdot_concat_pairs bm Hm). reflexivity.
+Qed.
+
+Lemma rsum_map_plus2 (A : Type) (p q : A -> R) (l : list A) :
+  rsum (map (fun b => p b + q b) l) = rsum (map p l) + rsum (map q l).
+Proof. induction l as [|x l IH]; cbn [map rsum]; [lra | rewrite IH; lra]. Qed.
+
+Lemma rsum_map_scal (A : Type) (p : A -> R) (c : R) (l : list A) :
+  rsum (map (fun b => p b * c) l) = rsum (map p l) * c.
+Proof. induction l as [|x l IH]; cbn [map rsum]; [lra | rewrite IH; lra]. Qed.
+
+Lemma rsum_map_opp (A : Type) (p : A -> R) (l : list A) :
+  rsum (map (fun b => - p b) l) = - rsum (map p l).
+Proof. induction l as [|x l IH]; cbn [map rsum]; [lra | rewrite IH; lra]. Qed.
+
+Theorem simple_batch_independent bd bm : batches_ok bd -> batches_ok bm ->
+  simple_batched bd bm
+  = simple_call (concat (map fst bd)) (concat (map snd bd)) (concat (map fst bm)) (concat (map snd bm)).
+Proof.
+  intros Hd Hm. unfold simple_batched, simple_call.
+  rewrite (rdot_concat_h ln bd Hd), rsum_concat_fst, (rdot_concat_pairs bm Hm).
+  rewrite (rsum_map_plus2 _ (fun b => - rdot (fst b) (map ln (snd b)))
+            (fun b => rsum (fst b) * ln (rsum (map (fun m => rdot (fst m) (snd m)) bm)))).
+  rewrite rsum_map_opp, rsum_map_scal. reflexivity.
+Qed.
+
+Theorem simple_clip_batch_independent bd bm : batches_ok bd -> batches_ok bm ->
+  simple_clip_batched bd bm
+  = simple_clip_call (concat (map fst bd)) (concat (map snd bd)) (concat (map fst bm)) (concat (map snd bm)).
+Proof.
+  intros Hd Hm. unfold simple_clip_batched, simple_clip_call.
+  rewrite (rdot_concat_h clip_log bd Hd), rsum_concat_fst, (rdot_concat_pairs bm Hm).
+  rewrite (rsum_map_plus2 _ (fun b => - rdot (fst b) (map clip_log (snd b)))
+            (fun b => rsum (fst b) * clip_log (rsum (map (fun m => rdot (fst m) (snd m)) bm)))).
+  rewrite rsum_map_opp, rsum_map_scal. reflexivity.
+Qed.
+
+(* ---- invariance under a common rescaling of all amplitudes (not extended) ---- *)
+
+Lemma rdot_ln_scale c w f :
+  0 < c -> Forall (fun x => 0 < x) f -> length w = length f ->
+  rdot w (map ln (rscale c f)) = rsum w * ln c + rdot w (map ln f).
+Proof.
+  intros Hc Hf. revert w. induction Hf as [|x f Hx _ IH]; intros [|a w] L; cbn [length] in L; try discriminate.
+  - cbn. lra.
+  - unfold rscale in *. cbn [map rdot rsum]. rewrite IH by (injection L; auto).
+    rewrite ln_mult by assumption. ring.
+Qed.
+
+Theorem nll_scale_invariant c w f v g :
+  0 < c -> length w = length f ->
+  Forall (fun x => eps_clip < x /\ eps_clip < c * x) f -> 0 < rdot v g / rsum v ->
+  nll_base false w (rscale c f) v (rscale c g) = nll_base false w f v g.
+Proof.
+  intros Hc L Hf HI. unfold nll_base. cbn [int_f].
+  assert (H1 : Forall (fun x => eps_clip < x) f).
+  { eapply Forall_impl; [|exact Hf]. cbn. intros a [A _]. exact A. }
+  assert (H2 : Forall (fun x => eps_clip < x) (rscale c f)).
+  { unfold rscale. apply Forall_forall. intros y Hy. apply in_map_iff in Hy. destruct Hy as [x [E Hx]]. subst y.
+    rewrite Forall_forall in Hf. apply (Hf x Hx). }
+  assert (H0 : Forall (fun x => 0 < x) f).
+  { eapply Forall_impl; [|exact H1]. cbn. unfold eps_clip. intros a A. lra. }
+  rewrite (rdot_clip_hi w _ H2), (rdot_clip_hi w f H1).
+  rewrite rdot_ln_scale by assumption. rewrite rdot_scale_r.
+  replace (c * rdot v g / rsum v) with (c * (rdot v g / rsum v)) by (unfold Rdiv; ring).
+  rewrite ln_mult by assumption. ring.
+Qed.
+
+Corollary nll_default_scale_invariant c ws bgw f v g :
+  0 < c -> length (blend ws bgw) = length f ->
+  Forall (fun x => eps_clip < x /\ eps_clip < c * x) f -> 0 < rdot (mc_norm v) g / rsum (mc_norm v) ->
+  nll_default false ws bgw (rscale c f) v (rscale c g) = nll_default false ws bgw f v g.
+Proof.
+  intros Hc L Hf HI. unfold nll_default, nll_call. apply nll_scale_invariant; try assumption.
+  unfold fcn_weight, scale_w. rewrite !length_rscale. exact L.
+Qed.
+
+(* the extended likelihood is NOT scale invariant (so the check does not demand it there) *)
+Theorem nll_extended_not_invariant :
+  exists c w f v g, 0 < c /\ nll_base true w (rscale c f) v (rscale c g) <> nll_base true w f v g.
+Proof.
+  exists 2, [1], [1], [1], [1]. split; [lra|].
+  unfold nll_base, alpha, sqs, rscale. cbn [map rsum rdot int_f].
+  rewrite !(clip_log_hi) by (unfold eps_clip; lra).
+  replace (2 * 1) with 2 by lra. rewrite ln_1.
+  intros H. assert (L2 : ln 2 < 1).
+  { rewrite <- (ln_exp 1). apply ln_increasing; [lra|]. pose proof (exp_ineq1 1 ltac:(lra)). lra. }
+  assert (E : (1 + 0) / (1 * 1 + 0) = 1) by (field). rewrite E in H. lra.
+Qed.
+
+(* ---- additivity: simultaneous fits and Gaussian constraints ---- *)
+
+Theorem nll_combine_additive a b cs :
+  combine (a ++ b) cs = combine a [] + combine b [] + gauss_term cs.
+Proof. unfold combine, gauss_term. cbn [map rsum]. rewrite rsum_app. lra. Qed.
+
+Lemma combine_no_constr nlls : combine nlls [] = rsum nlls.
+Proof. unfold combine, gauss_term. cbn [map rsum]. lra. Qed.
+
+Lemma combine_single nll cs : combine [nll] cs = fcn_total nll cs.
+Proof. unfold combine, fcn_total. cbn [rsum]. lra. Qed.
+
+Theorem gauss_constr_additive a b : gauss_term (a ++ b) = gauss_term a + gauss_term b.
+Proof. unfold gauss_term. rewrite map_app, rsum_app. reflexivity. Qed.
+
+Lemma gauss_at_mean m s : gauss_one (m, m, s) = 0.
+Proof. unfold gauss_one. unfold Rdiv. ring. Qed.
+
+Lemma gauss_term_doc th mean sigma : sigma <> 0 ->
+  gauss_term [(th, mean, sigma)] = (th - mean) ^ 2 / (2 * sigma ^ 2).
+Proof. intros H. unfold gauss_term, gauss_one. cbn [map rsum]. field. exact H. Qed.
+
+(* ---- cfit ---- *)
+
+Theorem cfit_matches_doc fb ws e f b v eg g bm :
+  rsum ws <> 0 -> rsum (sqs ws) <> 0 ->
+  cfit_default fb ws e f b v eg g bm = cfit_doc fb ws e f b v eg g bm /\
+  (Forall (fun x => eps_clip < x) (cfit_probs fb e f b (mc_norm v) eg g bm) ->
+   cfit_gradval fb (fcn_weight ws []) e f b (mc_norm v) eg g bm = cfit_doc fb ws e f b v eg g bm).
+Proof.
+  intros Hs Hq. unfold cfit_default, cfit_call, cfit_gradval, cfit_doc, fcn_weight. rewrite blend_nil. split.
+  - rewrite scale_w_idempotent by assumption. unfold scale_w. rewrite rdot_scale_l. ring.
+  - intros HP. rewrite (rdot_clip_hi _ _ HP). unfold scale_w. rewrite rdot_scale_l. ring.
+Qed.
+
+Theorem cfit_extended_matches_doc fb ws e f b v eg g bm :
+  rsum ws <> 0 -> rsum (sqs ws) <> 0 ->
+  cfit_ext_default fb ws e f b v eg g bm = cfit_ext_doc fb ws e f b v eg g bm /\
+  (Forall (fun x => eps_clip < x) (cfit_probs fb e f b (mc_norm v) eg g bm) ->
+   cfit_ext_gradval fb (fcn_weight ws []) e f b (mc_norm v) eg g bm = cfit_ext_doc fb ws e f b v eg g bm).
+Proof.
+  intros Hs Hq. unfold cfit_ext_default, cfit_ext_call, cfit_ext_gradval, cfit_ext_doc, fcn_weight. rewrite blend_nil.
+  cbv zeta. split.
+  - rewrite scale_w_idempotent by assumption. rewrite rsum_scale_w. unfold scale_w. rewrite rdot_scale_l. ring.
+  - intros HP. rewrite (rdot_clip_hi _ _ HP). rewrite rsum_scale_w. unfold scale_w. rewrite rdot_scale_l. ring.
+Qed.
+
+(* lambda = I_sig / (1 - f_bg) with I_sig the efficiency-weighted MC average *)
+Lemma cfit_lambda_doc fb v eg g :
+  cfit_lambda fb (mc_norm v) eg g = rdot v (sig_of eg g) / rsum v / (1 - fb).
+Proof. unfold cfit_lambda. rewrite rdot_mc_norm. reflexivity. Qed.
+
+(* the mixture reduces to the signal density when there is no background *)
+Lemma cfit_prob_no_bg isig ibg s b : cfit_prob 0 isig ibg s b = s / isig.
+Proof. unfold cfit_prob. unfold Rdiv. ring. Qed.
